@@ -35,8 +35,8 @@ var plans = map[string]propPlan{
 	},
 	"C02": {
 		Engine:   "slipsim",
-		Quick:    []flavPlan{{"plain", 18000, 200}},
-		Thorough: []flavPlan{{"plain", 600000, 2000}},
+		Quick:    []flavPlan{{"plain", 18000, 200}, {"race", 300, 10}},
+		Thorough: []flavPlan{{"plain", 600000, 2000}, {"race", 6000, 50}},
 		Rule: "one evaluation = one sequence of 3..16 API operations (NewMasterKey, DeriveChild hardened / non-hardened at boundary and random indices, Public, DeriveKeyFromPath) on one of the three curves wrapped in a fault-injecting Curve/Key double " +
 			"(retryable invalid-key faults as a keyed predicate over the candidate bytes at rate 0 / 0.5 / 0.9 / 0.99, permanent errors at the n-th collaborator call), every result compared with the reference model under the same fault plan; " +
 			"non-trivial if at least one injected fault fired; distinct = distinct hashes of the (operation kind, outcome, retry count, fault position) sequence among those",
